@@ -52,6 +52,9 @@ def build(case):
         complete = None
     f = case["fault"]
     eof = case["framing"] == "eof"
+    if f[0] == "corrupt" and case.get("keepalive"):
+        body = body[:f[1]] + bytes([f[2]]) + body[f[1] + 1:] if f[1] < len(body) else body
+        return raw, head, body, complete, spans, eof
     if f[0] == "cut":
         body = body[:f[1]]
         eof = True
@@ -62,6 +65,8 @@ def build(case):
 
 
 def in_model_domain(case):
+    if case.get("keepalive"):
+        return False               # the model reads up to EOF; a server that keeps the connection open is judged by the oracle
     if case["framing"] != "chunked" or case["api"][0] not in ("stream", "read_chunked"):
         return False
     if case["decode"] and case["coding"] != "identity":
@@ -184,6 +189,7 @@ def impl(case):
         r = None
         import gc
         gc.collect()
+        pooled_open = any(c is not None and getattr(c, "sock", None) is not None for c in list(pool.pool.queue))
         reused = None
         try:
             r2 = pool.urlopen("GET", "/again", retries=False)
@@ -191,7 +197,7 @@ def impl(case):
         except Exception as e:
             problems.append("the request after the faulty response failed with %s" % type(e).__name__)
     _STASH[id(case)] = problems
-    return [end, list(got), B(bool(reused))]
+    return [end, list(got), B(bool(reused)), B(pooled_open)]
 
 
 def reference_undecodable(case, body_raw):
@@ -230,7 +236,7 @@ def oracle(case, obs):
     problems = _STASH.pop(id(case), [])
     if problems:
         return problems[0]
-    end, got, reused = obs
+    end, got, reused, pooled_open = obs
     got = bytes(got)
     raw, head, body, complete, spans, eof = build(case)
     f = case["fault"]
@@ -264,6 +270,8 @@ def oracle(case, obs):
             return "%s but reading ended normally with %d bytes" % (must_raise, len(got))
         if f[0] == "cut" and complete is not None and got != want:
             return "a cut response ended normally with %d bytes instead of the payload's %d" % (len(got), len(want))
+    elif end != 4 and pooled_open:
+        return "the connection that carried the faulty response was left in the pool with its socket open"
     elif end != 4 and reused:
         # (a response whose framing ended cleanly and whose content coding alone was corrupt leaves a usable connection)
         return "the connection that carried the faulty response was handed to the next request"
@@ -348,6 +356,8 @@ def cases(rng, tier):
         else:
             fault = ["none"]
         out.append(dict(b, api=list(a), fault=fault))
+        if fault[0] == "corrupt" and b["framing"] != "eof" and rng.random() < 0.5:
+            out.append(dict(b, api=list(a), fault=fault, keepalive=True))      # the server does not close after the corrupt response
     return out
 
 
